@@ -355,7 +355,7 @@ def case(args):
                                    'method': 'GET', 'url': c['url'], 'version': c['version'],
                                    'expected': {'status': c['status_lean'], 'uuids': c['lean']},
                                    'observed': {'status': c['status_real'], 'uuids': c['real'], 'body': c.get('body')}}})
-    except Exception:
+    except BaseException:      # incl. an escaped RequestHang: a dead pool worker would hang the check
         out['error'] = traceback.format_exc()
     return out
 
